@@ -9,14 +9,15 @@ int ab_clz(uint32_t x) { return clz(x); }
 int ab_ctz(uint32_t x) { return ctz(x); }
 int ab_ilog2(uint32_t x) { return ilog2(x); }
 
-/* run-time evaluation: the volatile keeps the compiler from folding */
-int ab_const_pop(uint64_t c)
+/* run-time evaluation: the volatile keeps the compiler from folding.  The results travel as long long so that the
+ * value is seen as the macro produced it: "-1 for c = 0" delivered as the unsigned value 4294967295 is not -1. */
+long long ab_const_pop(uint64_t c)
 {
 	volatile uint64_t v = c;
 	uint64_t x = v;
 	return const_pop(x);
 }
-int ab_const_lssb(uint64_t c)
+long long ab_const_lssb(uint64_t c)
 {
 	volatile uint64_t v = c;
 	uint64_t x = v;
